@@ -19,6 +19,12 @@ import time
 
 sys.path.insert(0, os.path.dirname(os.path.abspath(__file__)))
 from vlib import core, engine, props  # noqa: E402
+
+# build configurations beyond the sanitizer build of the main pass (name, compiler, flags, defines)
+EXTRA_CONFIGS = {
+    "debugmode": ("g++-O1-glibcxx-debug", "g++", ["-std=c++17", "-O1", "-g1"], ["-D_GLIBCXX_DEBUG", "-D_GLIBCXX_DEBUG_PEDANTIC"]),
+    "release": ("g++-O2-ndebug", "g++", ["-std=c++17", "-O2"], ["-DNDEBUG"]),
+}
 try:
     from vlib import special  # noqa: E402
 except ImportError:  # pragma: no cover
@@ -229,6 +235,10 @@ def main():
     if harness and os.path.exists(core.DRIVER):
         if args.replay:
             ops = [l.rstrip("\n") for l in open(args.replay) if l.strip() and not l.startswith("#")]
+            marks = [l.split(":", 1)[1].strip() for l in open(args.replay) if l.startswith("# replay-config:")]
+            if marks and marks[0] in EXTRA_CONFIGS:
+                cfg = EXTRA_CONFIGS[marks[0]]
+                harness = core.build_harness(name="bgh17-" + cfg[0], flags=cfg[2], compiler=cfg[1], defines=cfg[3])
             m, r = engine.run_one(ops, harness, proj, tag="replay")
             print(r["impl"])
             if m is not None:
@@ -285,6 +295,7 @@ def main():
                 m = fl["mismatch"]
                 text = [f"# property {pid}: under libstdc++ debug mode ({cfg[1]} {' '.join(cfg[2] + cfg[3])}) this history does not",
                         "# produce the model's transcript: a debug-mode assertion (an out-of-bounds or otherwise undefined access)",
+                        "# replay-config: debugmode",
                         f"# first differing step {m['step']}: {m['op']}"] + shrunk
                 text += ["# --- this configuration said ---"] + ["#   " + l for l in m["impl"][:30]]
                 text += ["# --- model said ---"] + ["#   " + l for l in m["model"][:30]]
@@ -294,6 +305,38 @@ def main():
                 violation(p)
         except core.BuildError as e:
             p = core.write_replay(pid, "harness-build-debugmode.txt", f"# harness does not build in libstdc++ debug mode\n{e.output[-4000:]}\n")
+            violation(p, nofail=True)
+
+    # ---- 2c. the configuration users actually ship: -O2 -DNDEBUG.  Code whose effect sits inside an `assert(...)`, or that
+    #          relies on what an unoptimised build happens to do, passes every sanitizer build and fails here.  Run only
+    #          when the main pass found nothing (its replays are the better ones).
+    release_mode = None
+    if (pid in props.WORKLOADS and harness and not failures and os.path.exists(core.DRIVER) and not args.replay
+            and not proof_problems):
+        cfg = EXTRA_CONFIGS["release"]
+        try:
+            rel = core.build_harness(name="bgh17-" + cfg[0], flags=cfg[2], compiler=cfg[1], defines=cfg[3])
+            st3 = engine.Stats()
+            f3 = engine.run_histories(props.WORKLOADS[pid](tier, random.Random(seed)), rel, proj, st3)
+            release_mode = {"configuration": cfg[0], "histories": st3.evaluations, "mismatches": len(f3)}
+            f3.sort(key=lambda f: 0 if f["mismatch"]["kind"] == "violation" else 1)
+            for k, fl in enumerate(f3[:2]):
+                try:
+                    shrunk = engine.shrink(fl["ops"], rel, proj, fl["mismatch"]["kind"], budget=60)
+                except Exception:
+                    shrunk = fl["ops"]
+                m = fl["mismatch"]
+                isv = m["kind"] == "violation"
+                text = [f"# property {pid}: in a release build ({cfg[1]} {' '.join(cfg[2] + cfg[3])}) this history "
+                        + ("contradicts the property" if isv else "does not produce the model's transcript (the property's own relation holds on it)"),
+                        "# replay-config: release",
+                        f"# first differing step {m['step']}: {m['op']}"] + shrunk
+                text += ["# --- this configuration said ---"] + ["#   " + l for l in m["impl"][:30]]
+                text += ["# --- model said ---"] + ["#   " + l for l in m["model"][:30]]
+                p = core.write_replay(pid, f"release-{k + 1}.ops", "\n".join(text) + "\n")
+                violation(p, nofail=not isv)
+        except core.BuildError as e:
+            p = core.write_replay(pid, "harness-build-release.txt", f"# harness does not build with -O2 -DNDEBUG\n{e.output[-4000:]}\n")
             violation(p, nofail=True)
 
     # ---- 3. classify, shrink, report
@@ -348,6 +391,8 @@ def main():
         cov["libstdcxx_debug_mode"] = debug_mode
     if guided is not None:
         cov["guided_search_for_failing_input"] = guided
+    if release_mode is not None:
+        cov["release_build_ndebug"] = release_mode
     if api is not None:
         cov["entry_points_taking_a_vertex_index"] = api[0]
         cov["entry_points_not_covered"] = api[1]
